@@ -347,6 +347,21 @@ func decide(r *oblResult, o *checkOpts, work string) {
 		if ob.Group != "" {
 			budget = 3 // antecedent guards: many, and an undecided one is only a note
 		}
+		// vacuity guards under the opt-in cache: any earlier answer for the
+		// identical query is reused (they are notes, not proof steps)
+		if cf := cacheFile("cover:" + q); cf != "" {
+			if b, err := os.ReadFile(cf); err == nil {
+				f := strings.SplitN(strings.TrimSpace(string(b)), " ", 2)
+				if len(f) == 2 {
+					ob.Res = SolveResult{Status: f[0], Solver: "cache(" + f[1] + ")"}
+					return
+				}
+			}
+			ob.Res = solve(work, ob.Name, q, budget, o.seed, "")
+			os.MkdirAll(filepath.Dir(cf), 0o755)
+			os.WriteFile(cf, []byte(ob.Res.Status+" "+ob.Res.Solver), 0o644)
+			return
+		}
 		ob.Res = solve(work, ob.Name, q, budget, o.seed, "")
 		return
 	}
